@@ -70,12 +70,17 @@ def report(w, path, body):
     return names, "", data
 
 
+def card_name(i):
+    """member names with lower, upper and mixed case extensions"""
+    return "c%04d%s" % (i, (".vcf", ".VCF", ".Vcf")[i % 3])
+
+
 def make_book(w, path, cards):
     from . import gamma
     r = w.request("MKCOL", path, [("Content-Type", "text/xml")], gamma.mkcol_body("addressbook"))
     assert r.status in range(200, 300), r
     for i, c in enumerate(cards):
-        r = w.request("PUT", path + "c%04d.vcf" % i, [("Content-Type", "text/vcard")], vcard(c, "card-%d" % i))
+        r = w.request("PUT", path + card_name(i), [("Content-Type", "text/vcard")], vcard(c, "card-%d" % i))
         assert r.status in range(200, 300), (r.status, r.body[:300], vcard(c, "x"))
 
 
@@ -93,7 +98,7 @@ def run_table_a(values, table, frontend="wsgi", ascii_only=False):
             names, err, data = report(w, "/user/contacts/a/", query_xml(f))
             got = []
             for n in names or []:
-                if n.startswith("c") and n.endswith(".vcf"):
+                if n.startswith("c") and n.lower().endswith(".vcf"):
                     got.append(values[int(n[1:5])])
             if checked < 30:
                 for n, d in list(data.items())[:2]:
@@ -118,7 +123,7 @@ def run_table_b(cards, table, frontend="wsgi"):
             got = [False] * len(cards)
             extra = 0
             for n in names or []:
-                if n.startswith("c") and n.endswith(".vcf"):
+                if n.startswith("c") and n.lower().endswith(".vcf"):
                     got[int(n[1:5])] = True
                 else:
                     extra += 1
@@ -127,8 +132,8 @@ def run_table_b(cards, table, frontend="wsgi"):
             # (the smallest limit last: the next unlimited query follows a limited one)
             for nres in (10, 2, 0, 1):
                 ln, lerr, _ = report(w, "/user/contacts/b/", query_xml(t["f"], limit=nres))
-                lnames = [n for n in (ln or []) if n.endswith(".vcf")]
-                full = {("c%04d.vcf" % i) for i, x in enumerate(got) if x}
+                lnames = [n for n in (ln or []) if n.lower().endswith(".vcf")]
+                full = {card_name(i) for i, x in enumerate(got) if x}
                 lim.append({"n": nres, "total": total, "got": len(lnames), "err": lerr,
                             "subset": set(lnames) <= full})
         return out, lim
